@@ -998,7 +998,41 @@ func ensureServiceTxn(tx WriteTxn, idx uint64, node string, preserveIndexes bool
 	}
 
 	// Insert the service and update the index
-	return catalogInsertService(tx, entry)
+	if err := catalogInsertService(tx, entry); err != nil {
+		return err
+	}
+
+	// The instance may have been re-registered under another service name. Readers of the
+	// old name must see a new index: bump it if other instances remain, otherwise retire it
+	// the way deleteServiceTxn does for the last instance of a service.
+	if existing != nil {
+		if oldName := existing.(*structs.ServiceNode).ServiceName; oldName != entry.ServiceName {
+			remaining, err := tx.First(tableServices, indexService, Query{
+				Value:          oldName,
+				EnterpriseMeta: svc.EnterpriseMeta,
+				PeerName:       svc.PeerName,
+			})
+			if err != nil {
+				return fmt.Errorf("failed service lookup: %s", err)
+			}
+			if remaining != nil {
+				if err := catalogUpdateServiceIndexes(tx, idx, oldName, &svc.EnterpriseMeta, svc.PeerName); err != nil {
+					return fmt.Errorf("failed updating service indexes: %w", err)
+				}
+			} else {
+				_, serviceIndex, err := catalogServiceMaxIndex(tx, oldName, &svc.EnterpriseMeta, svc.PeerName)
+				if err == nil && serviceIndex != nil {
+					if err := tx.Delete(tableIndex, serviceIndex); err != nil {
+						return fmt.Errorf("failed deleting service index %s: %s", oldName, err)
+					}
+				}
+				if err := catalogUpdateServiceExtinctionIndex(tx, idx, &svc.EnterpriseMeta, svc.PeerName); err != nil {
+					return err
+				}
+			}
+		}
+	}
+	return nil
 }
 
 // assignServiceVirtualIP assigns a virtual IP to the target service and updates
